@@ -18,6 +18,7 @@ from wpull.backport.logging import StyleAdapter
 from wpull.body import Body
 from wpull.document.css import CSSReader
 from wpull.document.html import HTMLReader
+from wpull.errors import ProtocolError
 from wpull.path import anti_clobber_dir_path, parse_content_disposition, \
     PathNamer
 import wpull.util
@@ -254,7 +255,8 @@ class BaseFileWriterSession(BaseWriterSession):
         # enums that appear to define this case, it is checked throughout
         # the code, but the HTTP function doesn't even use them.
         # FIXME: unit test is needed for this case
-        raise IOError(
+        # This is the server's doing: it is an error of this URL only.
+        raise ProtocolError(
             _('Server not able to continue file download: {filename}.')
             .format(filename=self._filename))
 
